@@ -593,7 +593,10 @@ pub fn property_c11() -> Property {
     Property {
         id: "C11",
         level: "exploration",
-        parts: vec![Box::new(PropPart(C11))],
+        parts: vec![
+            Box::new(PropPart(C11)),
+            Box::new(PropPart(crate::props::e2e::C11Agent)),
+        ],
     }
 }
 
